@@ -1158,4 +1158,65 @@ def r5_10(ctx):
     ctx.floor(n, 2, "self-extensions from a parameter's list in Text")
 
 
-RULES = [r5_0, r5_1, r5_2, r5_3, r5_4, r5_5, r5_6, r5_7, r5_8, r5_9, r5_10]
+def r5_11(ctx):
+    ctx.rule("R5.11", "stores to another Text's `plain` keep every surviving character at its offset (the setter only trims spans at the END): the new value is the old plain with a same-length replacement (.replace(a, b) with len(a) == len(b), `prefix + old[len(prefix):]`), a right trim (.rstrip(), old[:k]), set_cell_size(old, n) or `old + suffix`; a value that drops characters from the front (.strip(), .lstrip(), old[k:]) or inserts before them leaves the spans where they were - every character then shows its neighbour's style")
+    n = 0
+    for m in ctx.repo.modules.values():
+        for f in m.functions.values():
+            if m.in_main_guard(f.node):
+                continue
+            for x in walk_local(f.node):
+                if not (isinstance(x, ast.Assign) and len(x.targets) == 1 and isinstance(x.targets[0], ast.Attribute) and x.targets[0].attr == "plain"):
+                    continue
+                recv = norm(x.targets[0].value)
+                if recv == "self":
+                    continue  # Text's own methods: R5.1 / R5.2
+                n += 1
+                old = f"{recv}.plain"
+                v = x.value
+                where = f"{m.relpath}:{x.lineno}"
+
+                def same_pos(e) -> str:
+                    """'ok' | 'bad:<why>' | 'unknown'"""
+                    if norm(e) == old:
+                        return "ok"
+                    if isinstance(e, ast.Call) and isinstance(e.func, ast.Attribute) and norm(e.func.value) == old:
+                        a = e.func.attr
+                        if a == "rstrip":
+                            return "ok"
+                        if a in ("strip", "lstrip"):
+                            return f"bad:.{a}() removes leading characters"
+                        if a == "replace" and len(e.args) == 2 and all(isinstance(q, ast.Constant) and isinstance(q.value, str) for q in e.args):
+                            return "ok" if len(e.args[0].value) == len(e.args[1].value) else f"bad:replace({e.args[0].value!r}, {e.args[1].value!r}) changes the length in the middle of the text"
+                        if a in ("expandtabs", "title", "upper", "lower", "swapcase", "capitalize") and a != "expandtabs":
+                            return "unknown"
+                        return "unknown"
+                    if isinstance(e, ast.Call) and norm(e.func) in ("set_cell_size",) and e.args and norm(e.args[0]) == old:
+                        return "ok"
+                    if isinstance(e, ast.Subscript) and norm(e.value) == old and isinstance(e.slice, ast.Slice):
+                        if e.slice.lower is None and e.slice.step is None:
+                            return "ok"
+                        return "bad:the slice drops leading characters"
+                    if isinstance(e, ast.BinOp) and isinstance(e.op, ast.Add):
+                        if same_pos(e.left) == "ok":
+                            return "ok"  # old + suffix
+                        # prefix + old[len(prefix):]
+                        r = e.right
+                        if isinstance(r, ast.Subscript) and norm(r.value) == old and isinstance(r.slice, ast.Slice) and r.slice.upper is None and r.slice.lower is not None and norm(r.slice.lower) == f"len({norm(e.left)})":
+                            return "ok"
+                        if norm(e.right) == old or same_pos(e.right) == "ok":
+                            return "bad:characters are inserted before the old text"
+                    if isinstance(e, ast.JoinedStr):
+                        return "unknown"
+                    return "unknown"
+                r = same_pos(v)
+                if r == "ok":
+                    ctx.ok(where, f"`{short(x)}` keeps characters at their offsets", f.fq)
+                elif r.startswith("bad:"):
+                    ctx.violation(f.fq, short(x), where, f"`{short(x)}`: {r[4:]}, but the spans of `{recv}` stay where they were (the plain setter only trims spans beyond the new end) - characters slide under their neighbours' styles; use the span-aware method instead")
+                else:
+                    raise AnalysisError(f"{f.fq}: `{short(x)}` stores a new plain text this rule cannot relate to the old one")
+    ctx.floor(n, 4, "stores to another Text's plain")
+
+
+RULES = [r5_0, r5_1, r5_2, r5_3, r5_4, r5_5, r5_6, r5_7, r5_8, r5_9, r5_10, r5_11]
